@@ -178,6 +178,9 @@ fn self_ops<T: Lat>(cx: &mut Ctx, op: &str, args: &[&str]) -> Option<String> {
             cx.rec.count(&format!("istop:{k}:{r}"));
             if cx.mode == Mode::C03 {
                 cx.check(r == a.spec_top(), "c03-istop", k);
+                // a type all of whose values are bottom is a one-point lattice: every value is greatest
+                let degenerate = T::pool().iter().all(|p| p.spec_bot()) && a.spec_bot();
+                cx.check(!degenerate || r, "c03-istop-degenerate", k);
                 if r {
                     let ok = T::pool().into_iter().all(|p| {
                         let mut x = a.clone();
